@@ -24,7 +24,7 @@ ASSUMPTIONS = ['polling step of the kill loop is 0.1 s (kill_process); tolerance
 
 CAUSES = ['stop', 'restart', 'decr', 'reload', 'reload-seq', 'reload-term', 'kill', 'kill-signum', 'kill-gt',
           'kill-gt0', 'kill-gt-small', 'kill-pid', 'max_age', 'set-np', 'set-gt+stop', 'set-sig+stop', 'set-gt+decr',
-          'badkill+stop', 'kill-long+stop']
+          'badkill+stop', 'kill-long+stop', 'reject']
 SIGS = {'TERM': signal.SIGTERM, 'INT': signal.SIGINT, 'QUIT': signal.SIGQUIT, 'USR1': signal.SIGUSR1}
 TOL = 1e-4
 STEP = 0.1
@@ -113,6 +113,14 @@ def run(scn, ch):
     opts = dict(graceful_timeout=g, stop_signal=sig, stop_children=scn.sc)
     if scn.cause == 'max_age':
         opts.update(max_age=1, max_age_variance=0)
+    if scn.cause == 'reject':
+        # the after_spawn hook refuses the third worker (the one an incr adds): it is terminated like any other - and so
+        # are its siblings, the watcher being stopped
+        from props.common import nth_hook
+
+        class _W(object):
+            hook_calls = []
+        opts['hooks'] = {'after_spawn': (nth_hook(_W, 3, False), False)}
     world = World(ch, [WSpec('a', numprocesses=2, behaviours=[_behaviour(scn)], **opts),
                        WSpec('z', numprocesses=1, graceful_timeout=9.0, stop_signal=int(signal.SIGUSR2))])
     win = Window(world)
@@ -185,6 +193,8 @@ def run(scn, ch):
             world.run(horizon=0.2)
             t_cause = CLOCK.now
             world.request('stop', name='a')
+        elif c == 'reject':
+            world.request('incr', name='a')
         elif c == 'max_age':
             pass
         horizon = 2.5 + 4 * exp_g + (1.5 if c == 'max_age' else 0)
